@@ -538,6 +538,7 @@ def g5iii_allocator_validation(prog):
             return S(t[1])
         return None
     n_store = n_lookup = n_scan = 0
+    fill_kinds = set()
     saw_missing_rejected = False
     slots_root = None
     for p in E.paths:
@@ -570,9 +571,11 @@ def g5iii_allocator_validation(prog):
             src_root, kinds = pathsem.iter_chain(el[1]) if el[0] == 'elem' else (None, [])
             locv = slot[l_i]
             if locv == pathsem.NONE:
+                fill_kinds.add('free')
                 if S(src_root) not in (p_free, ('L', 0, p_free[1])):
                     once('free-slot-source', st['ln'], 'a location-less (free) slot is created for an identifier that does not come from the serialised free list')
             elif isinstance(locv, tuple) and locv[0] == 'agg' and locv[2] == 'Some' and isinstance(locv[4][0], tuple) and locv[4][0][0] == 'agg' and locv[4][0][1] == LOC:
+                fill_kinds.add('located')
                 lf = locv[4][0][4]
                 ident, index = lf[li_i], lf[lx_i]
                 # element comes from <archetype>.entity_identifiers() of an archetype of `archetypes`
@@ -588,6 +591,12 @@ def g5iii_allocator_validation(prog):
                     once('location-index', st['ln'], 'deserialised location index is not the row position (enumerate index)')
             else:
                 once('location-shape', st['ln'], 'cannot see the location stored in a slot')
+        # a slot found already filled is a duplicate entity index: the path must fail
+        if p.ended == 'return' and not is_err:
+            for e in p.calls(lambda e: e['path'].startswith('core::slice') and e['name'] == 'get_mut' and any(is_adt(x, 'core::option::Option') for x in e['f'].get('args', []))):
+                sl = ('d', ('f', ('down', e['ret'], 'Some', 1), 0, 'core::option::Option'))
+                if p.lookup(('discr', sl)) == 1 and not any(st_['loc'] == sl and st_['i'] < p.conds.at[[a_ for a_, v in p.conds].index(('discr', sl))] for st_ in stores):
+                    once('slot-overwrite', e['ln'], 'a slot that is already filled (duplicate entity index in the input) does not make deserialisation fail')
         # failed lookups must fail deserialisation
         for e in p.calls(lambda e: e['path'].startswith('core::slice') and e['name'] == 'get_mut' and any(is_adt(x, 'core::option::Option') for x in e['f'].get('args', []))):
             n_lookup += 1
@@ -634,8 +643,8 @@ def g5iii_allocator_validation(prog):
     r.inst('from_serialized_parts: %d slot writes on %d paths' % (n_store, len(E.paths)))
     r.inst('from_serialized_parts: %d bounds-checked slot lookups' % n_lookup)
     r.inst('from_serialized_parts: completeness check on %d Ok paths' % n_scan)
-    if n_store < 2 or n_lookup < 2:
-        once('slot-write-count', None, 'expected slot-filling sites for the free list and for the archetype rows')
+    if n_store < 2 or n_lookup < 2 or not fill_kinds >= {'free', 'located'}:
+        once('slot-write-count', None, 'expected slot-filling sites for the free list and for the archetype rows (found: %s)' % sorted(fill_kinds))
     if n_scan and not saw_missing_rejected:
         once('missing-slot-not-rejected', None, 'an unfilled slot does not produce an error')
     if not n_scan:
